@@ -116,6 +116,15 @@ CHECKS = {
         'the recorded raw verdict is handed to the model and the final outcome (result or error class with the reported names) compared; Numerical/Sum graders and sibling lists against the property oracle "never credit for a cheating formula"; get_permitted_functions against its closed form.',
    note=PROOF_NOTE + ' Partial: the numeric verdict is a parameter (C04); evaluation errors that pre-empt a restriction are avoided by the generators. The author\'s answers using restricted constructs are exercised on the implementation only.',
    technique='Lean 4 proof (decision logic of the validators composed with the usage-exactness theorem of the parser) + correspondence + cheating-formula oracle', design='§6 C09'),
+ 'C16': dict(
+   text='Decision logic of between / congruence / eigenvector / vector_span / vector_phase comparers, MatrixEntryComparer and LinearComparer modelled over exact Gaussian rationals with norms compared through their squares; proved: between accepts iff real and within the closed bounds (complex refused); '
+        'congruence with a positive modulus and absolute tolerance t accepts iff |student - expected - k*modulus| <= t for some integer k (circular, both sides of a multiple alike); the exact eigenvector test accepts iff v != 0 and M v = lambda v, and any rescaling of an eigenvector satisfies it (linearity of the product); '
+        'the square-only magnitude test decides | |a|-|b| | <= tau; span = nonzero and residual within tolerance (exactly: residual 0), phase = span and same magnitude; MatrixEntryComparer gives full credit iff all entries match at every sample, zero iff none, otherwise the flat credit or the fraction of matching entries; '
+        'LinearComparer needs three samples, awards the largest configured credit among the relations that hold within tolerance, considers only equals/offset when either side is zero, and its equals relation at tolerance 0 is pointwise equality. '
+        'Tie: the real comparer functions called with the grader\'s own utils on exact dyadic targets x members built by the defining transformation x non-members at controlled distance x tolerance kinds x partial-credit settings (the same LinearComparer object serving several calls), compared with the model and an exact Fraction oracle; '
+        'Formula/Matrix graders with each comparer on member/non-member formulas; the answer_shape_mismatch policy grid.',
+   note=PROOF_NOTE + ' Partial: np.linalg.lstsq and the floating-point norms are not modelled (the exact squared least-squares residual is computed by the harness; a relative guard band of 1e-6 around the tolerance boundary is skipped and counted); LinearComparer is modelled for real scalar samples. Finding F9 (between_comparer raised on real values of complex type) was repaired in /repo.',
+   technique='Lean 4 proof (floor/mod arithmetic for circular congruence, linearity of matrix-vector products, squared-norm decision lemmas, max-selection spec) + correspondence + exact Fraction oracle', design='§6 C16'),
  'C11': dict(
    text='ItemGrader.__call__ / AbstractGrader.__call__ modelled as a state machine over the grader object (stored answers, inferring flag, log flag, debug log) with validation, text check and grading as parameters; proved by induction over ANY call history '
         '(including calls that raise in validation, in the input check or in grading): the next call returns what a freshly constructed grader returns for the current expect value or the last successfully supplied one; '
